@@ -63,6 +63,9 @@ type Entry struct {
 	NHs   []uint64 // nhg: member next-hop indices (same NI)
 	NHGNI string   // top-level: network instance of the group (resolved, never "")
 	NHG   uint64   // top-level: group id
+	// Loose: installed by an operation of Unspecified validity; its stored payload
+	// (and hence what it references) is not predicted.
+	Loose bool
 }
 
 type HeldOp struct {
@@ -87,8 +90,20 @@ func NewModel(def string, vrfs []string, fwd bool) *Model {
 
 const maxLabel = 1048575
 
-// Analyse classifies op and extracts its key and references.
+// Analyse classifies op and extracts its key and references. A structurally
+// valid ADD/REPLACE whose payload is not of an ordinary shape is Unspecified.
 func (m *Model) Analyse(op *spb.AFTOperation) (Validity, *Entry, string) {
+	v, e, why := m.analyseStruct(op)
+	if v == Valid && e != nil && op.GetOp() != spb.AFTOperation_DELETE {
+		if ok, odd := m.ordinaryPayload(e.Msg); !ok {
+			return Unspecified, e, "unusual payload: " + odd
+		}
+	}
+	return v, e, why
+}
+
+// analyseStruct is the structural part of Analyse.
+func (m *Model) analyseStruct(op *spb.AFTOperation) (Validity, *Entry, string) {
 	ni := op.GetNetworkInstance()
 	switch op.GetOp() {
 	case spb.AFTOperation_ADD, spb.AFTOperation_REPLACE, spb.AFTOperation_DELETE:
@@ -317,6 +332,11 @@ func (m *Model) Expect(op *spb.AFTOperation) (Verdict, *Entry, string) {
 	switch op.GetOp() {
 	case spb.AFTOperation_DELETE:
 		if e.Key.Kind == KNHG || e.Key.Kind == KNH {
+			for _, x := range m.Tab {
+				if x.Loose && x.Key.Kind != KNH {
+					return VEither, e, "an entry of unpredicted content may reference it"
+				}
+			}
 			if m.Tab[e.Key] != nil {
 				if refs := m.Referrers(e.Key); len(refs) > 0 {
 					return VFail, e, fmt.Sprintf("referenced by %v", refs)
